@@ -279,7 +279,7 @@ def attempt(M, env, conn, out, late_loss=False):
     env.script = script
 
     class Owner:
-        name, description = "owner", None
+        name, description, hook_owner = "owner", None, True
 
         async def connection_made(self, secure):
             if secure and out == "ok-then-hook-KeyError":
@@ -287,7 +287,10 @@ def attempt(M, env, conn, out, late_loss=False):
             if secure and out == "ok-then-hook-HttpErrorResponse":
                 raise X.HttpErrorResponse("Got HTTP error 400 for PUT against /characteristics", response=None)
 
-    conn.owner = Owner() if out.startswith("ok-then-hook") else None
+    if out.startswith("ok-then-hook"):
+        conn.owner = Owner()
+    elif getattr(conn.owner, "hook_owner", False):
+        conn.owner = None  # (an owner the caller installed itself stays)
 
     def gsk(pairing_data):
         resp = yield ([(6, b"\x01")], [6, 7])
